@@ -491,6 +491,8 @@ class RedeemScript(Script):
         quorum_m = op_code_to_number(self.commands[0])
         # 3 because quorum_m, OP_CHECKMULTISIG, and bitcoin off-by-one error
         quorum_n = len(self.commands) - 3
+        if op_code_to_number(self.commands[-2]) != quorum_n:
+            raise ValueError(f"Number of pubkeys does not match OP_n: {self}")
         return quorum_m, quorum_n
 
     def signing_pubkeys(self):
@@ -602,6 +604,8 @@ class WitnessScript(Script):
 
         quorum_m = OP_CODE_NAMES[self.commands[0]].split("OP_")[1]
         quorum_n = OP_CODE_NAMES[self.commands[-2]].split("OP_")[1]
+        if int(quorum_n) != len(self.commands) - 3:
+            raise ValueError(f"Number of pubkeys does not match OP_n: {self}")
 
         return int(quorum_m), int(quorum_n)
 
